@@ -171,6 +171,10 @@ class ProjectFiles:
             if matcher.match(base) is not None:
                 yield base
             return
+        if not base.endswith("/"):
+            # the prefix ends inside a file or directory name,
+            # e.g. for "browser/ba*.ftl", walk the containing directory
+            base = mozpath.dirname(base)
         for d, dirs, files in self._walk(base):
             for f in files:
                 p = mozpath.join(d, f)
